@@ -211,6 +211,12 @@ def run(ctx, rep):
             rep.ok("R07.2", "PayloadCache::%s" % nm, "assigns last_evictable := argument on every path", where=gs.where(gs.entry))
     rep.floor("R07.2", "boundary setters", setters, 1)
 
+    # ---------------- R07.8 -------------------------------------------------------------
+    rep.rule("R07.8", "= C04's R04.3/R04.8: FlushWorker.files stays in chunk order (push at the back, remove(0) after its sync) and writes go to "
+                      "files.last(): the boundary `files[0].prev_last_log_id` and the place of every byte depend on that order")
+    from c03 import _Filter as _F
+    c04.run(ctx, _F(rep, keep=("R04.3", "R04.8"), rename="R07.8/"))
+
     # ---------------- R07.3 -------------------------------------------------------------
     fe = ctx.facts.adts.get("raft_log::wal::flush_worker::FileEntry")
     srcs = []
